@@ -52,7 +52,7 @@ theorem indent_decl_roundtrip (p : XmlParams) {t : Tree} (hr : Representable env
       obtain ⟨q, hq, h1, h2, _⟩ := build_erase_ok .document _
         (strLen (d.bytes ++ renderLines (spellTopP env p.tokenParams sup ks))) env _ ts' her.symm p0 hb0
       refine ⟨q, ?_, by rw [h1, ht], by rw [h2, he]⟩
-      simp only [parseString, lexMode, hl, build_declaration]
+      simp only [parseString, lexMode, hl, build_declaration_opt]
       exact hq
 
 /-! ### Only whitespace-only text nodes are added -/
